@@ -2188,7 +2188,7 @@ pub fn search(name: &str, seed: u64) -> Value {
             if let Some(v) = chk_sexp_equality() { return v; }
             nf("conversion round trip and the three tree hashes agree on the enumerated values in both integer modes")
         }
-        "path_optimizer" | "sub_args" | "path_from_args" | "optimize_sexp" | "path_number_from_u8" | "new" | "add" | "first" | "rest" | "as_path" | "seems_constant" => {
+        "path_optimizer" | "sub_args" | "path_from_args" | "optimize_sexp" | "path_number_from_u8" | "new" | "add" | "first" | "rest" | "as_path" | "seems_constant" | "unit:brief" | "brief_path_selection_single" | "brief_path_selection" => {
             for p in optimizer_programs() { for e in 0..6u8 {
                 if skipped(&json!({"program": p, "env": e})) { continue; }
                 if let Some(mut v) = optimizer_vs_consensus(&p, e) { v["input"] = json!({"program": p, "env": e}); return v; }
